@@ -67,9 +67,11 @@ theorem minv_getDifference {O log keys org start} (hO : GoodOrders O) (hS : Scn 
       simpa using ih _ h4
     | diff msgs enc others p q slice =>
       simp only
-      have hans' : (m2.w.commonDiff m3.pts.state m3.qts.state).2 = .diff msgs enc others p q slice := by
+      have hans' : (m2.w.commonDiff (m3.learnUsers (msgs ++ others)).pts.state (m3.learnUsers (msgs ++ others)).qts.state).2 =
+          .diff msgs enc others p q slice := by
+        show (m2.w.commonDiff m3.pts.state m3.qts.state).2 = _
         rw [hp3, hq3]; exact hans
-      have h4 := minv_diffBranch hO hS h3 m2.w h2.coh.hlog h2.p0 h2.q0 msgs enc others p q slice hans'
+      have h4 := minv_diffBranch hO hS (minv_learnUsers h3 (msgs ++ others)) m2.w h2.coh.hlog h2.p0 h2.q0 msgs enc others p q slice hans'
       cases slice with
       | false =>
         simp only [Bool.false_eq_true, if_false] at h4 ⊢
